@@ -184,6 +184,7 @@ def intLit : String → Option Int
   | "32767" => some 32767
   | "-128" => some (-128)
   | "127" => some 127
+  | "4294967295" => some 4294967295
   | "0" => some 0
   | "255" => some 255
   | _ => none
@@ -215,7 +216,7 @@ theorem registry_float_rows_proven : (Generated.registry.filter hasChunk).all fl
   decide +kernel
 
 theorem registry_float_rows_exist :
-    (Generated.registry.filter hasChunk).all (fun b => floatRowsCount b == 16) = true := by decide +kernel
+    (Generated.registry.filter hasChunk).all (fun b => floatRowsCount b == 20) = true := by decide +kernel
 
 theorem registry_int_rows_bounded : intRowsBounded = true := by decide +kernel
 
